@@ -7,8 +7,8 @@ import (
 	"io"
 	"os"
 	"path/filepath"
-	"strconv"
 	"runtime"
+	"strconv"
 	"strings"
 	"sync/atomic"
 	"time"
@@ -21,19 +21,20 @@ import (
 func init() { props["C02"] = runC02 }
 
 type c02Case struct {
-	Rows    int    `json:"rows,omitempty"` // stream cases: about this many chunks, hashing of a few held back
-	Kind    string `json:"kind"` // seq | par | stream | trace
-	BlobHex string `json:"blob_hex"`
-	Min     uint64 `json:"min"`
-	Avg     uint64 `json:"avg"`
-	Max     uint64 `json:"max"`
-	Frags   []int  `json:"frags,omitempty"`
-	Eager   bool   `json:"eager_eof,omitempty"`
-	N       int    `json:"n,omitempty"`
-	Sched   uint64 `json:"sched_seed,omitempty"`
-	Shape   string `json:"shape"`
-	Got     string `json:"impl,omitempty"`
-	Want    string `json:"expected,omitempty"`
+	ZeroEvery int    `json:"empty_read_every,omitempty"` // seq cases: every k-th Read returns (0, nil)
+	Rows      int    `json:"rows,omitempty"`             // stream cases: about this many chunks, hashing of a few held back
+	Kind      string `json:"kind"`                       // seq | par | stream | trace
+	BlobHex   string `json:"blob_hex"`
+	Min       uint64 `json:"min"`
+	Avg       uint64 `json:"avg"`
+	Max       uint64 `json:"max"`
+	Frags     []int  `json:"frags,omitempty"`
+	Eager     bool   `json:"eager_eof,omitempty"`
+	N         int    `json:"n,omitempty"`
+	Sched     uint64 `json:"sched_seed,omitempty"`
+	Shape     string `json:"shape"`
+	Got       string `json:"impl,omitempty"`
+	Want      string `json:"expected,omitempty"`
 }
 
 // fragReader mirrors Model/Chunker.v read1: the k-th Read returns at most
@@ -43,11 +44,19 @@ type fragReader struct {
 	data  []byte
 	frags []int
 	eager bool
+	// zeroEvery > 0: every zeroEvery-th call returns (0, nil) while data remains -- legal for an
+	// io.Reader ("nothing happened"); such a read is a stutter step and not part of the model's reads
+	zeroEvery int
+	calls     int
 }
 
 func (r *fragReader) Read(p []byte) (int, error) {
 	if len(r.data) == 0 {
 		return 0, io.EOF
+	}
+	r.calls++
+	if r.zeroEvery > 0 && r.calls%r.zeroEvery == 0 {
+		return 0, nil
 	}
 	want := len(p)
 	if len(r.frags) > 0 {
@@ -228,7 +237,7 @@ func c02Seq(a vh.Args, o *vh.Oracle, r *vh.Result, c *c02Case) error {
 	if err != nil {
 		return err
 	}
-	frag, _, err := seqChunks(&fragReader{data: blob, frags: append([]int{}, c.Frags...), eager: c.Eager}, c.Min, c.Avg, c.Max)
+	frag, _, err := seqChunks(&fragReader{data: blob, frags: append([]int{}, c.Frags...), eager: c.Eager, zeroEvery: c.ZeroEvery}, c.Min, c.Avg, c.Max)
 	if err != nil {
 		return err
 	}
@@ -418,6 +427,13 @@ func runC02(a vh.Args, o *vh.Oracle, r *vh.Result) error {
 			}
 			return c02FlagsOne(a, o, r, &fc)
 		}
+		if c.Kind == "advance" {
+			var ac c02AdvCase
+			if err := readJSON(a.Replay, &ac); err != nil {
+				return err
+			}
+			return c02AdvanceOne(r, &ac)
+		}
 		if c.Kind == "stream" {
 			for i := 0; i < 5; i++ {
 				if err := c02StreamCheck(r, vh.UnHex(c.BlobHex), c.Min, c.Avg, c.Max, c.N, c.Rows); err != nil {
@@ -452,6 +468,13 @@ func runC02(a vh.Args, o *vh.Oracle, r *vh.Result) error {
 	if err := c02Flags(a, o, r, rng, nfl); err != nil {
 		return err
 	}
+	nadv := 60
+	if a.Tier == "thorough" {
+		nadv = 1500
+	}
+	if err := c02Advance(r, rng, nadv); err != nil {
+		return err
+	}
 	if err := c02Resonance(a, o, r, rng); err != nil {
 		return err
 	}
@@ -472,9 +495,18 @@ func runC02(a vh.Args, o *vh.Oracle, r *vh.Result) error {
 			for k := 0; k < 50; k++ {
 				c.Frags = append(c.Frags, 1)
 			}
+		case 2:
+			// many small reads, far fewer bytes than max between two empty reads
+			for k := 0; k < 2*len(blob)/int(mn)+20; k++ {
+				c.Frags = append(c.Frags, 1+rng.Intn(int(mn)))
+			}
+			c.ZeroEvery = 2 + rng.Intn(4)
 		default:
 			for k := 0; k < 5+rng.Intn(60); k++ {
 				c.Frags = append(c.Frags, 1+rng.Intn(int(3*mx)))
+			}
+			if rng.Chance(1, 3) {
+				c.ZeroEvery = 2 + rng.Intn(5)
 			}
 		}
 		c.Eager = rng.Chance(1, 4)
@@ -570,11 +602,13 @@ func (h slowDigest) Sum(b []byte) [32]byte {
 
 type discardStore struct{}
 
-func (discardStore) GetChunk(id desync.ChunkID) (*desync.Chunk, error) { return nil, desync.ChunkMissing{ID: id} }
-func (discardStore) HasChunk(id desync.ChunkID) (bool, error)          { return false, nil }
-func (discardStore) StoreChunk(c *desync.Chunk) error                   { return nil }
-func (discardStore) Close() error                                       { return nil }
-func (discardStore) String() string                                     { return "discard" }
+func (discardStore) GetChunk(id desync.ChunkID) (*desync.Chunk, error) {
+	return nil, desync.ChunkMissing{ID: id}
+}
+func (discardStore) HasChunk(id desync.ChunkID) (bool, error) { return false, nil }
+func (discardStore) StoreChunk(c *desync.Chunk) error         { return nil }
+func (discardStore) Close() error                             { return nil }
+func (discardStore) String() string                           { return "discard" }
 
 // c02Stream: ChunkStream (single chunker feeding n hashing workers) on inputs larger than the
 // chunker's 10*max buffer: the index must carry, for every row, the digest of blob[start:start+size].
